@@ -219,6 +219,26 @@ def fromRecords (service : Name) (records : List RR) : Option Instance :=
     | _ => i) { name := [], ips := [], ports := [], attrs := [] }
   name.map (fun n => { inst with name := Name.display n })
 
+/-- the records of a response that `add_response_to_resources` keeps -/
+def ingestRecords (p : Packet) (service full : Name) : List RR :=
+  (p.answers ++ p.additional).filter (fun r => r.name != full && r.name.isSubdomainOf service)
+
+/-- the distinct owner names of a record list, in the order of first appearance -/
+def owners (rs : List RR) : List Name :=
+  rs.foldl (fun acc r => if acc.contains r.name then acc else acc ++ [r.name]) []
+
+/-- what `add_response_to_resources` sends on the `on_discovery` channel (while it is open): one
+`InstanceInformation` per owner name among the kept records (since fix 3098c07; before, one for the
+whole packet: `reportsMerged`) -/
+def reports (p : Packet) (service full : Name) : List Instance :=
+  let rs := ingestRecords p service full
+  (owners rs).filterMap (fun o => fromRecords service (rs.filter (fun r => r.name == o)))
+
+/-- the channel report of the code before fix 3098c07 -/
+def reportsMerged (p : Packet) (service full : Name) : List Instance :=
+  let rs := ingestRecords p service full
+  if rs.isEmpty then [] else (fromRecords service rs).toList
+
 /-- `get_known_services` -/
 def known (s : Store) (service : Name) (now : Nat) : List Instance :=
   (s.getDomain service Filter.cachedOnly now).filterMap (fromRecords service)
